@@ -47,6 +47,21 @@ CHECKS = {
     text="TLC exhausts all strict-FIFO arrangements of 3 kernels on two streams (linked with any earlier launch start, or unlinked), every start of event 0 and thresholds {1,2}: invariants IdleMeaning, IdleAddsUp, UnlinkedNeverHostWait; 300/4000 generated traces with unlinked kernels, boundary gaps (threshold-1, threshold, 0), stream subsets and thresholds {1,2,5,30,31} through the real API, every (stream, category) sum and ratio checked by TLC.",
     note="Domain: WellFormed rows and strict per-stream FIFO (no overlap, no shared start instant), re-evaluated by TLC per record. " + TB,
     ref="DESIGN.md section 5 (C06)"),
+ "C03": dict(
+    technique="TLA+ transcription of both endpoint comparators + stack machine (MC_CallStack) checked by TLC over every laminar family of <=3 (thorough 4) spans and every sort outcome + TLC trace validation of both builders and of CallGraph against the declarative tree (Trace_CallStack)",
+    text="TLC checks, for every properly nested family on the grid 0..3 with every id assignment, that the transcribed comparator is a strict total order, that a minimal endpoint always exists, that closes pop their own event (LIFO) and that the machine's parents/depths equal the declarative tree (innermost enclosing positive span; identical spans in file order; touching spans siblings; zero-duration events under a closed-span container); the d6 configurations make TLC exhibit the known non-transitive shape. 400/5000 generated thread families (dense tie grids and program-simulated threads) go through trace_call_stack.CallStackGraph, call_stack.CallStackGraph and CallGraph; TLC judges every returned (parent, depth).",
+    note="Known finding D6 (zero-duration event where one positive span ends and another begins) is suppressed only for that shape and the parent clauses; everything else is reported. " + TB,
+    ref="DESIGN.md section 5 (C03)"),
+ "C13": dict(
+    technique="TLA+ model of the bottom-up decoration passes and of backward re-parenting (MC_CallGraphAttrs) checked by TLC over all small forests + TLC trace validation of the stack columns and get_stack_of_node (Trace_CallStack/CallGraphAttrs)",
+    text="TLC explores every forest of 3 (thorough 4) host nodes and 2 (3) device activities, every post-order of the passes and one optional re-parenting, with invariants AttrsMeaning and PartialCounts; 200/3000 generated multi-thread traces (autograd thread, backward annotations, shifted timestamps) are loaded through TraceAnalysis + CallGraph and TLC checks device parents, depth, height, the five kernel aggregates with their defaults, backward linking and get_stack_of_node against the returned tree.",
+    note="Host parents/backward linking inherit known finding D6 (shape-matched). Name classes are computed by the harness. " + TB,
+    ref="DESIGN.md section 5 (C13)"),
+ "C16": dict(
+    technique="TLA+ call-graph model (MC_CallGraphAttrs, kernel descendants) checked by TLC + TLC trace validation of get_frequent_cuda_kernel_sequences against Instances/PatternOf/PatCount (CallGraphAttrs.tla)",
+    text="150/2000 generated traces with repeated operator names at several depths; for a drawn operator name, min_pattern_len in {1,2,3} and top_k in {1,5} the returned table is compared by TLC with: instances = matching events at the shallowest matching depth with enough kernel descendants, pattern = name + descendant kernel names in start order, count/CPU/GPU sums, descending-count order.",
+    note="Descendants are taken from the call graph's parent column (bound by C13); substring match done by the harness; cases where two device activities share a start time are redrawn. " + TB,
+    ref="DESIGN.md section 5 (C16)"),
 }
 
 NOT_YET = {}
